@@ -2,8 +2,9 @@
    C08: skip, skipAfter, allow and chain steer evaluation exactly as documented.
    Code side: fl_eval_loop / fl_eval_phase / fl_run (Flow.v, transcribed from RuleGroup.Eval,
    Rule.doEvaluate, the flow actions and the Process* entry points); these are the functions the
-   correspondence run (CorrC08.ok) evaluates. eng = true: SecRuleEngine On, false: DetectionOnly.
-   req: which link keys match in this request (arbitrary). *)
+   correspondence run (CorrC08.ok) evaluates. eng: the configured SecRuleEngine (MOn | MDet | MOff); the
+   transaction's current mode s_eng is state, changed by ctl:ruleEngine of a matching link; Allow and
+   Interrupt read the current mode. req: which link keys match in this request (arbitrary). *)
 From Verif Require Import Base Flow FlowProofs.
 Local Open Scope nat_scope.
 
@@ -12,7 +13,8 @@ Local Open Scope nat_scope.
    documented semantics (fl_spec_run: per phase, rewriting of the agenda = the phase-filtered list of
    live entries; no skip counter and no pending marker survive a rule, let alone a phase).
    Every rule list (markers present / absent / before / after / duplicated, any mix of actions, chains
-   of any length), every assignment of matches, both engine modes; no well-formedness guard. *)
+   of any length, ctl:ruleRemoveById and ctl:ruleEngine switches anywhere), every assignment of matches,
+   every configured engine mode; no well-formedness guard. *)
 Theorem C08_refines_spec : forall eng req rules,
   fl_obs (fl_run eng req rules) = fl_gobs (fl_spec_run eng req rules).
 Proof. exact refines_spec. Qed.
@@ -21,41 +23,41 @@ Print Assumptions C08_refines_spec.
 (* skip:N: when the loop of phase p evaluates r (no pending state, r of this phase and not removed) and
    r's effective actions hold no skipAfter, the phase goes on exactly as on the rule list without the
    shortest prefix holding N entries of phase p (markers count, removed rules do not) *)
-Theorem C08_skip_exact : forall eng req p r rest s,
+Theorem C08_skip_exact : forall req p r rest s,
   s_skip s = 0 -> s_after s = None -> fl_halted p s = false -> fl_in_phase p r = true ->
   fl_removed s r = false -> fl_allow_break p s = None ->
   fl_last_after (fl_fired_acts req r) = None ->
-  let s1 := fl_evaluate eng req p r s in
-  fl_eval_phase eng req p (r :: rest) s =
-  fl_eval_phase eng req p (fl_drop_entries p (s_rm s1) (fl_last_skip (fl_fired_acts req r)) rest) (set_skip 0 s1).
+  let s1 := fl_evaluate req p r s in
+  fl_eval_phase req p (r :: rest) s =
+  fl_eval_phase req p (fl_drop_entries p (s_rm s1) (fl_last_skip (fl_fired_acts req r)) rest) (set_skip 0 s1).
 Proof. exact skip_exact. Qed.
 Print Assumptions C08_skip_exact.
 
 (* skipAfter:M: the phase resumes right after the first later live marker M (a skip count set by the
    same rule applies from there) *)
-Theorem C08_skipafter_resume : forall eng req p r rest s m,
+Theorem C08_skipafter_resume : forall req p r rest s m,
   s_skip s = 0 -> s_after s = None -> fl_halted p s = false -> fl_in_phase p r = true ->
   fl_removed s r = false -> fl_allow_break p s = None ->
   fl_last_after (fl_fired_acts req r) = Some m ->
-  let s1 := fl_evaluate eng req p r s in
-  fl_eval_phase eng req p (r :: rest) s =
-  fl_eval_phase eng req p (fl_after_entry p (s_rm s1) m rest) (set_after None s1).
+  let s1 := fl_evaluate req p r s in
+  fl_eval_phase req p (r :: rest) s =
+  fl_eval_phase req p (fl_after_entry p (s_rm s1) m rest) (set_after None s1).
 Proof. exact skipafter_resume. Qed.
 Print Assumptions C08_skipafter_resume.
 
 (* ... and when no such marker follows (absent, or only before the rule), nothing more is evaluated
    in this phase and the phase ends with the end-of-phase resets applied to the state right after r *)
-Theorem C08_skipafter_absent : forall eng req p r rest s m,
+Theorem C08_skipafter_absent : forall req p r rest s m,
   s_skip s = 0 -> s_after s = None -> fl_halted p s = false -> fl_in_phase p r = true ->
   fl_removed s r = false -> fl_allow_break p s = None ->
   fl_last_after (fl_fired_acts req r) = Some m ->
-  let s1 := fl_evaluate eng req p r s in
+  let s1 := fl_evaluate req p r s in
   fl_after_entry p (s_rm s1) m rest = [] ->
-  fl_eval_phase eng req p (r :: rest) s = fl_end_phase s1.
+  fl_eval_phase req p (r :: rest) s = fl_end_phase s1.
 Proof. exact skipafter_absent. Qed.
 Print Assumptions C08_skipafter_absent.
 
-(* allow scopes (engine On).  (1) the rule setting an allow that covers its own phase is the last one
+(* allow scopes (transaction in mode On after the rule's own ctl actions).  (1) the rule setting an allow that covers its own phase is the last one
    evaluated in it; (2) a phase that starts under an allow covering it (bare allow: phases <= 4,
    allow:request: phases <= 2, allow:phase: never carried, see C08_no_cross_phase) evaluates nothing;
    (3) bare allow stays in force through phases 1-4, allow:request from phase 1 into phase 2;
@@ -64,18 +66,19 @@ Theorem C08_allow_scopes :
   (forall req p r rest s sc, 1 <= p <= 5 ->
      s_skip s = 0 -> s_after s = None -> fl_halted p s = false -> fl_in_phase p r = true ->
      fl_removed s r = false -> fl_allow_break p s = None ->
+     fl_prefix_eng req (r_links r) (s_eng s) = MOn ->
      fl_last_allow (fl_fired_acts req r) = Some sc -> fl_blocks (Some sc) p = true ->
-     let s1 := fl_evaluate true req p r s in
-     fl_obs (fl_eval_phase true req p (r :: rest) s) = fl_obs s1 /\
-     s_rm (fl_eval_phase true req p (r :: rest) s) = s_rm s1)
-  /\ (forall eng req q rs s, 1 <= q <= 5 -> fl_blocks (s_allow s) q = true ->
-     fl_obs (fl_eval_phase eng req q rs s) = fl_obs s /\ s_rm (fl_eval_phase eng req q rs s) = s_rm s)
-  /\ (forall eng req q rs s, 1 <= q <= 4 -> s_allow s = Some ScAll ->
-     s_allow (fl_eval_phase eng req q rs s) = Some ScAll)
-  /\ (forall eng req rs s, s_allow s = Some ScRequest ->
-     s_allow (fl_eval_phase eng req 1 rs s) = Some ScRequest)
-  /\ (forall eng req q rs s, 3 <= q <= 5 -> s_skip s = 0 -> s_after s = None -> s_allow s = Some ScRequest ->
-     fl_obs (fl_eval_phase eng req q rs s) = fl_obs (fl_eval_phase eng req q rs (set_allow None s))).
+     let s1 := fl_evaluate req p r s in
+     fl_obs (fl_eval_phase req p (r :: rest) s) = fl_obs s1 /\
+     s_rm (fl_eval_phase req p (r :: rest) s) = s_rm s1)
+  /\ (forall req q rs s, 1 <= q <= 5 -> fl_blocks (s_allow s) q = true ->
+     fl_obs (fl_eval_phase req q rs s) = fl_obs s /\ s_rm (fl_eval_phase req q rs s) = s_rm s)
+  /\ (forall req q rs s, 1 <= q <= 4 -> s_allow s = Some ScAll ->
+     s_allow (fl_eval_phase req q rs s) = Some ScAll)
+  /\ (forall req rs s, s_allow s = Some ScRequest ->
+     s_allow (fl_eval_phase req 1 rs s) = Some ScRequest)
+  /\ (forall req q rs s, 3 <= q <= 5 -> s_skip s = 0 -> s_after s = None -> s_allow s = Some ScRequest ->
+     fl_obs (fl_eval_phase req q rs s) = fl_obs (fl_eval_phase req q rs (set_allow None s))).
 Proof.
   split; [exact allow_ends_phase|]. split; [exact allow_blocks_phase|].
   split; [exact allow_all_persists|]. split; [exact allow_request_persists | exact allow_request_expired].
@@ -86,28 +89,33 @@ Print Assumptions C08_allow_scopes.
    pending marker and no allow:phase; (2) a rule of another phase is invisible to the loop of phase p
    (not evaluated, not counted by skip, not consumed by skipAfter), wherever it stands in the file *)
 Theorem C08_no_cross_phase :
-  (forall eng req p rs s, fl_boundary (fl_eval_phase eng req p rs s))
-  /\ (forall eng req p r', fl_in_phase p r' = false -> forall pre post s,
-      fl_eval_loop eng req p (pre ++ r' :: post) s = fl_eval_loop eng req p (pre ++ post) s).
+  (forall req p rs s, fl_boundary (fl_eval_phase req p rs s))
+  /\ (forall req p r', fl_in_phase p r' = false -> forall pre post s,
+      fl_eval_loop req p (pre ++ r' :: post) s = fl_eval_loop req p (pre ++ post) s).
 Proof. split; [exact phase_end_boundary | exact other_phase_invisible]. Qed.
 Print Assumptions C08_no_cross_phase.
 
-(* the logging phase always runs, and whatever allow scope / interruption / earlier skips the
+(* the logging phase always runs (unless the transaction's rule engine has been switched Off, in which
+   case ProcessLogging evaluates nothing), and whatever allow scope / interruption / earlier skips the
    transaction carries, it evaluates exactly what a fresh transaction with the same per-transaction
-   removals would *)
+   removals and the same engine mode would *)
 Theorem C08_logging_always_runs : forall eng req rs, exists s4,
   fl_boundary s4 /\
-  fl_run eng req rs = fl_eval_phase eng req 5 rs s4 /\
-  s_ev (fl_run eng req rs) = s_ev s4 ++ s_ev (fl_eval_phase eng req 5 rs (fl_fresh (s_rm s4))).
+  (s_eng s4 <> MOff ->
+   fl_run eng req rs = fl_eval_phase req 5 rs s4 /\
+   s_ev (fl_run eng req rs) = s_ev s4 ++ s_ev (fl_eval_phase req 5 rs (fl_fresh (s_rm s4) (s_eng s4)))).
 Proof. exact logging_always_runs. Qed.
 Print Assumptions C08_logging_always_runs.
 
-(* DetectionOnly: the transaction is, state for state, the one of the same rule set with every allow
-   deleted; the allow type is never set *)
-Theorem C08_detection_only_allow_ignored : forall req rs,
-  fl_run false req (map fl_strip_allow rs) = fl_run false req rs
-  /\ s_allow (fl_run false req rs) = None.
-Proof. intros; split; [apply detection_only_allow_ignored | apply detection_only_allow_never_set]. Qed.
+(* DetectionOnly refers to the transaction's CURRENT mode: (1) an allow executed while the mode is not On
+   changes nothing, whatever SecRuleEngine says; (2) a transaction that does not start in mode On and
+   whose rule set holds no ctl:ruleEngine=On is, state for state, the one of the same rule set with every
+   allow deleted, and its allow type is never set *)
+Theorem C08_detection_only_allow_ignored :
+  (forall p id s sc, s_eng s <> MOn -> fl_apply_act p id s (AAllow sc) = s)
+  /\ (forall eng req rs, eng <> MOn -> fl_no_switch_on rs = true ->
+      fl_run eng req (map fl_strip_allow rs) = fl_run eng req rs /\ s_allow (fl_run eng req rs) = None).
+Proof. split; [exact allow_not_on_ignored | exact detection_only_allow_ignored]. Qed.
 Print Assumptions C08_detection_only_allow_ignored.
 
 (* chains: (1) every link matched: the starter's flow/disruptive actions are applied exactly once each,
@@ -115,17 +123,17 @@ Print Assumptions C08_detection_only_allow_ignored.
    counter, pending marker, allow type and both interruptions are untouched and the rule is not
    recorded as matched; (3) flow actions written on chain members never take effect *)
 Theorem C08_chain_starter_actions_once :
-  (forall eng req p r s, fl_all_match req r = true ->
-     fl_evaluate eng req p r s =
+  (forall req p r s, fl_all_match req r = true ->
+     fl_evaluate req p r s =
      add_ev (Ev p (r_id r) (negb (r_id r =? 0)))
-            (fold_left (fl_apply_act eng p (r_id r)) (r_acts r) (add_rm (flat_map l_rm (r_links r)) s)))
-  /\ (forall eng req p r s, fl_all_match req r = false ->
-     let s' := fl_evaluate eng req p r s in
+            (fold_left (fl_apply_act p (r_id r)) (r_acts r) (fold_left (fun s l => fl_link_ctl l s) (r_links r) s)))
+  /\ (forall req p r s, fl_all_match req r = false ->
+     let s' := fl_evaluate req p r s in
      s_skip s' = s_skip s /\ s_after s' = s_after s /\ s_allow s' = s_allow s /\
      s_intr s' = s_intr s /\ s_dintr s' = s_dintr s /\
      s_ev s' = s_ev s ++ [Ev p (r_id r) false])
-  /\ (forall eng req p r s,
-     fl_evaluate eng req p (fl_strip_link_acts r) s = fl_evaluate eng req p r s).
+  /\ (forall req p r s,
+     fl_evaluate req p (fl_strip_link_acts r) s = fl_evaluate req p r s).
 Proof.
   split; [exact chain_all_matched|]. split; [exact chain_not_all_matched | exact chain_link_actions_inert].
 Qed.
